@@ -118,48 +118,66 @@ def judge(chk, results, module, cfg, sig_prefix, sigfn=None, shards=None, key="e
 
 
 # ------------------------------------------------------------------ Layer A binding of the data plane
-def bind_tunnel(chk, results, key="TSRV"):
-    """Every iteration of the real server's event loop in the recorded single-client DNS-mode runs must be a step of
-    Tunnel.tla's server functions (TraceTunnelSrv.tla).  Drift only - never a VIOLATION."""
+def bind_tunnel(chk, results):
+    """Every iteration of the real server's event loop and of the real client's tunnel loop in the recorded
+    single-client DNS-mode runs must be a step of Tunnel.tla's server / client functions (TraceTunnelSrv.tla,
+    TraceTunnelCli.tla).  Drift only - never a VIOLATION."""
+    d1 = _bind_half(chk, results, "TSRV", "TraceTunnelSrv", "srv",
+                    lambda t: (min(t["fragsize"], 4094), t["lazy"]),
+                    lambda g: {"TT_FRAG": str(g[0]), "TT_LAZY": str(g[1])},
+                    hs_up="pkt", hs_dn="p", out_side="dn", tunw_side="up")
+    d2 = _bind_half(chk, results, "TCLI", "TraceTunnelCli", "cli",
+                    lambda t: (t["capup"], t["lazy"]),
+                    lambda g: {"TT_CAPUP": str(g[0]), "TT_LAZY": str(g[1])},
+                    hs_up="p", hs_dn="pk", out_side="up", tunw_side="dn")
+    return d1 + d2
+
+
+def _bind_half(chk, results, key, module, tag, groupfn, envfn, hs_up, hs_dn, out_side, tunw_side):
     import json
     import os
     groups = {}
     skipped = 0
+    have = False
     for i, r in enumerate(results):
+        if key in r:
+            have = True
         t = r.get(key)
         if not t:
             skipped += 1
             continue
-        groups.setdefault((min(t["fragsize"], 4094), t["lazy"]), []).append(i)
+        groups.setdefault(groupfn(t), []).append(i)
+    if not have:
+        return []
     drift = []
     bound = events = 0
-    for (frag, lazy), idx in sorted(groups.items()):
+    for g, idx in sorted(groups.items()):
         up, dn, exs = [], [], []
         for i in idx:
             t = results[i][key]
-            ub, db = len(up), len(dn)
+            base = {"up": len(up), "dn": len(dn)}
             ex = []
             for e in t["events"]:
                 e = json.loads(json.dumps(e))
                 for h in e.get("hs", []):
-                    if h["pkt"]:
-                        h["pkt"] += ub
-                    if h["p"]:
-                        h["p"] += db
+                    if h.get(hs_up):
+                        h[hs_up] += base["up"]
+                    if h.get(hs_dn):
+                        h[hs_dn] += base["dn"]
                 for a in e.get("out", []):
                     if a["pk"]:
-                        a["pk"] += db
+                        a["pk"] += base[out_side]
                 if "tunw" in e:
-                    e["tunw"] = [x + ub if x else 0 for x in e["tunw"]]
+                    e["tunw"] = [x + base[tunw_side] if x else 0 for x in e["tunw"]]
                 ex.append(e)
             exs.append(ex)
             up += t["up"]
             dn += t["dn"]
-        lp = os.path.join(vcheck.scratch(), "tt-lens-%d-%d-%d.json" % (os.getpid(), frag, lazy))
+        lp = os.path.join(vcheck.scratch(), "tt-lens-%s-%d-%s.json" % (tag, os.getpid(), "-".join(str(x) for x in g)))
         with open(lp, "w") as f:
             f.write(json.dumps({"up": up, "dn": dn}) + "\n")
-        out = vcheck.validate_executions("TraceTunnelSrv", "TraceTunnelSrv.cfg", exs, max_rejects=3,
-                                         env_extra={"TT_FRAG": str(frag), "TT_LAZY": str(lazy), "TT_LENS": lp})
+        out = vcheck.validate_executions(module, module + ".cfg", exs, max_rejects=3,
+                                         env_extra=dict(envfn(g), TT_LENS=lp))
         os.unlink(lp)
         bound += out["validated"]
         events += out["events"]
@@ -167,15 +185,15 @@ def bind_tunnel(chk, results, key="TSRV"):
             chk.notes.setdefault("binding_broken", []).append(out["broken"][:500])
         for rej in out["rejected"]:
             r = results[idx[rej["index"]]]
-            drift.append({"run": r["label"], "at": rej["at"], "event": json.dumps(rej["event"])[:700]})
-    chk.cov["layerA_tunnel_bound_runs"] = chk.cov.get("layerA_tunnel_bound_runs", 0) + bound
-    chk.cov["layerA_tunnel_bound_iterations"] = chk.cov.get("layerA_tunnel_bound_iterations", 0) + events
-    chk.cov["layerA_tunnel_not_bound"] = chk.cov.get("layerA_tunnel_not_bound", 0) + skipped
+            drift.append({"half": tag, "run": r["label"], "at": rej["at"], "event": json.dumps(rej["event"])[:700]})
+    chk.cov["layerA_tunnel_%s_bound_runs" % tag] = chk.cov.get("layerA_tunnel_%s_bound_runs" % tag, 0) + bound
+    chk.cov["layerA_tunnel_%s_bound_iterations" % tag] = chk.cov.get("layerA_tunnel_%s_bound_iterations" % tag, 0) + events
+    chk.cov["layerA_tunnel_%s_not_bound" % tag] = chk.cov.get("layerA_tunnel_%s_not_bound" % tag, 0) + skipped
     chk.cov["drift"] = chk.cov.get("drift", []) + drift[:10]
     chk.cov["drift_count"] = chk.cov.get("drift_count", 0) + len(drift)
     if drift:
-        print("DRIFT property=%s layer-A Tunnel.tla: %d run(s) are not behaviours of the specification, first: %s"
-              % (chk.pid if hasattr(chk, "pid") else "?", len(drift), drift[0]))
+        print("DRIFT property=%s layer-A Tunnel.tla (%s half): %d run(s) are not behaviours of the specification, first: %s"
+              % (chk.pid, tag, len(drift), drift[0]))
     return drift
 
 
